@@ -11,7 +11,7 @@
    signer's (name, key hash) accepts what Sg produces (section hypotheses). *)
 From Verif.Base Require Import Bytes Strconv StrconvProofs Base64 Base64Proofs.
 From Verif.Gen Require Import GenConsts.
-From Verif.Tlog Require Import Index Tree Codec Spec6962 ProofsSpec ProofsTree ProofsStore ProofsCodec.
+From Verif.Tlog Require Import Index Tree Codec Spec6962 ProofsIndex ProofsSpec ProofsTree ProofsStore ProofsCodec.
 From Verif.Note Require Import Note NoteProofs NoteProofsRT.
 From Verif.Module Require Import Escape.
 From Verif.Client Require Import Server ServerProofs.
@@ -93,6 +93,7 @@ Hypothesis Hver : exists ver, Note.lookup vid vs (sg_name sgn) (sg_hash sgn) = L
 
 Notation store_of := (store_of leaf_hash node_hash).
 Notation SInv := (SInv leaf_hash node_hash gosum).
+Notation HInv := (HInv leaf_hash node_hash).
 Notation serve_test := (serve_test leaf_hash node_hash gosum sid Sg sgn).
 Notation test_ops := (test_ops leaf_hash node_hash gosum sid Sg sgn).
 Notation test_signed := (test_signed node_hash sid Sg sgn).
@@ -116,10 +117,10 @@ Definition signed_head (msg : str) (recs : list str) : Prop :=
              parse_tree (n_text nt) = Index.Ok (head recs).
 
 Theorem test_signed_spec st :
-  SInv st -> zlen (ts_records st) < 2 ^ 62 ->
+  HInv st -> zlen (ts_records st) < 2 ^ 62 ->
   exists msg, test_signed st = OOk msg /\ signed_head msg (ts_records st).
 Proof.
-  intros [Hh _] Hlen. set (recs := ts_records st) in *.
+  intros Hh Hlen. unfold ServerProofs.HInv in Hh. set (recs := ts_records st) in *.
   unfold Server.test_signed. fold recs.
   rewrite (tree_hash_ext node_hash _ _ (reader_of (ts_hashes st)) (safe_reader_eq _)), Hh.
   rewrite (tree_hash_is_MTH leaf_hash node_hash recs (zlen recs) Hlen) by (pose proof (zlen_nonneg recs); lia).
@@ -144,7 +145,7 @@ Proof.
 Qed.
 
 Theorem serve_latest_honest st :
-  SInv st -> zlen (ts_records st) < 2 ^ 62 ->
+  HInv st -> zlen (ts_records st) < 2 ^ 62 ->
   exists msg, serve_test st latest_path = (HOk CText msg, st) /\ signed_head msg (ts_records st).
 Proof.
   intros HI Hlen. destruct (test_signed_spec st HI Hlen) as (msg & E & H).
@@ -180,10 +181,10 @@ Proof.
   destruct Hc as [(id & d & Efst & Hg' & Hid0 & Hnth & Hst)|(_ & _ & Hno & _)]; [|exfalso; eapply Hno; eauto].
   rewrite Hg in Hg'. injection Hg' as <-.
   set (st' := snd (test_lookup leaf_hash node_hash gosum st M (118 :: v'))) in *.
-  assert (Hidlt : Z.to_nat id < length (ts_records st'))%nat by (apply nth_error_Some; congruence).
+  assert (Hidlt : (Z.to_nat id < length (ts_records st'))%nat) by (apply nth_error_Some; congruence).
   assert (Hlen' : zlen (ts_records st') < 2 ^ 62).
   { destruct Hst as [->| ->]; [lia|]. rewrite zlen_app. change (zlen [text]) with 1. lia. }
-  destruct (test_signed_spec st' HI' Hlen') as (signed & Esig & Hhead).
+  destruct (test_signed_spec st' (SInv_HInv _ _ _ _ HI') Hlen') as (signed & Esig & Hhead).
   exists id, st', signed.
   assert (H63 : 2 ^ 62 < 2 ^ 63) by (apply pow2_lt; lia).
   assert (Hidr : 0 <= id < zlen (ts_records st')) by (unfold zlen; lia).
